@@ -131,7 +131,7 @@ def explore(ctx, res, replay=None):
             if 'wf=1' not in k or 'halt=1' not in k or 'counts=1' not in k:
                 res.violations.append(dict(case, what='wf', detail='verified checker rejects the emitted program: %s' % k))
             v = vout.get('v%d' % i, '')
-            if v.startswith(('CRASH', 'TIMEOUT')) or 'inv=tile' in v or 'inv=range' in v:
+            if v.startswith(('CRASH', 'TIMEOUT', 'MEMLIMIT')) or 'inv=tile' in v or 'inv=range' in v:
                 res.violations.append(dict(case, what='vm_access', detail='execution under sanitizers: ' + v[:200]))
         else:
             if 'tables=1' not in k or 'nobreak=1' not in k:
@@ -149,7 +149,7 @@ def explore(ctx, res, replay=None):
                 if f == hidden:
                     res.violations.append(dict(case, what='hidden', detail='available location in the hidden file: line %d' % l))
                 elif (f, l) not in toks:
-                    res.violations.append(dict(case, what='location', detail='available location %s:%d carries no token' % (bytes.fromhex(f).decode('latin-1') if f != '-' else '', l)))
+                    res.violations.append(dict(case, what='location', detail='available location %s:%d carries no token' % (vlib.unhex_s(f) if f != '-' else '', l)))
             # inverse tables, checked directly too
             for b, ss in p['pbs'].items():
                 for s in ss:
